@@ -283,6 +283,8 @@ package ring
 //@ # walk positions: the k-th position clockwise from start on a circle of n tokens (k < n: at most one wrap)
 //@ opaque pure func walkIdx(start int, k int, n int) int = start + k < n ? start + k : start + k - n
 //@ opaque pure func tokOwner(r Ring, i int) string = r.ringInstanceByToken[r.ringTokens[i]].InstanceID
+//@ pred zoneFull(seen set[string], found []int, target int, z int, zone string) = zone != "" && seen[zone] && 0 <= z && z < len(found) && found[z] >= target
+//@ opaque pure func tokZone(r Ring, i int) string = r.ringInstanceByToken[r.ringTokens[i]].Zone
 //@ macro pred walkPlain(r Ring, f func(string) (bool, bool)) = f == nil && !r.cfg.ZoneAwarenessEnabled
 //@
 //@ func Ring.findInstancesForKey
@@ -302,6 +304,8 @@ package ring
 //@   # tokens at the first `iterations` positions clockwise from the first token strictly after the key, and the returned
 //@   # instances are exactly their ring entries (wpos / idAt / jOf are the position witnesses)
 //@   ghost var wpos total[string]int = havoc
+//@   ghost var zix total[string]int = havoc
+//@   ghost var zseen set[string] = emptyset("")
 //@   ghost var idAt total[int]string = havoc
 //@   ghost var jOf total[string]int = havoc
 //@   loop 1 end wpos := len(instances) > len(prevI) ? store(wpos, info.InstanceID, iterations - 1) : wpos
@@ -310,10 +314,23 @@ package ring
 //@   loop 1 invariant pos: start == searchToken(r.ringTokens, key) && 0 <= start && start < len(r.ringTokens) && (iterations < len(r.ringTokens) ==> (i == len(r.ringTokens) ? 0 : i) == walkIdx(start, iterations, len(r.ringTokens)))
 //@   at before@ring.stringSet.contains: assert wrapped: 0 <= i && i < len(r.ringTokens) && i == walkIdx(start, iterations - 1, len(r.ringTokens)) && info.InstanceID == tokOwner(r, i)
 //@   loop 1 invariant walked: walkPlain(r, instanceFilter) ==> (forall k int :: 0 <= k && k < iterations ==> ssHas(distinctHosts, tokOwner(r, walkIdx(start, k, len(r.ringTokens)))))
-//@   loop 1 invariant members: walkPlain(r, instanceFilter) ==> (forall id string :: ssHas(distinctHosts, id) ==> 0 <= wpos[id] && wpos[id] < iterations && tokOwner(r, walkIdx(start, wpos[id], len(r.ringTokens))) == id && 0 <= jOf[id] && jOf[id] < len(instances) && idAt[jOf[id]] == id)
-//@   loop 1 invariant returned: walkPlain(r, instanceFilter) ==> (forall j int :: 0 <= j && j < len(instances) ==> ssHas(distinctHosts, idAt[j]) && jOf[idAt[j]] == j && instances[j] == get(r.ringDesc.Ingesters, idAt[j]))
+//@   loop 1 invariant members: instanceFilter == nil ==> (forall id string :: ssHas(distinctHosts, id) ==> 0 <= wpos[id] && wpos[id] < iterations && tokOwner(r, walkIdx(start, wpos[id], len(r.ringTokens))) == id && 0 <= jOf[id] && jOf[id] < len(instances) && idAt[jOf[id]] == id)
+//@   loop 1 invariant returned: instanceFilter == nil ==> (forall j int :: 0 <= j && j < len(instances) ==> ssHas(distinctHosts, idAt[j]) && jOf[idAt[j]] == j && instances[j] == get(r.ringDesc.Ingesters, idAt[j]))
+//@   # with zones (no filter): members are walked owners and the returned instances their entries (above, zones or not); a walked
+//@   # owner that is not a member belongs to a zone whose quota was already full when it was met (quotas only grow); no zone
+//@   # ever exceeds its quota; and the walk stops early only when every zone is full or exhausted
+//@   loop 1 invariant zquota: instanceFilter == nil && r.cfg.ZoneAwarenessEnabled ==> (forall z int :: 0 <= z && z < len(r.ringZones) ==> 0 <= foundHostsPerZone[z] && foundHostsPerZone[z] <= targetHostsPerZone)
+//@   loop 1 invariant zwalked: instanceFilter == nil && r.cfg.ZoneAwarenessEnabled && zonesRep(r) ==> (forall k int :: 0 <= k && k < iterations ==> ssHas(distinctHosts, tokOwner(r, walkIdx(start, k, len(r.ringTokens)))) ||
+//@              (zoneFull(zseen, foundHostsPerZone, targetHostsPerZone, zix[tokZone(r, walkIdx(start, k, len(r.ringTokens)))], tokZone(r, walkIdx(start, k, len(r.ringTokens))))))
+//@   loop 1 invariant zseen: r.cfg.ZoneAwarenessEnabled ==> (forall zn string :: zseen[zn] ==> 0 <= zix[zn] && zix[zn] < len(r.ringZones) && r.ringZones[zix[zn]] == zn)
+//@   at after@slices.Index: assert zix_stable: zonesRep(r) && zseen[info.Zone] && $r0 >= 0 ==> zix[info.Zone] == $r0
+//@   at after@slices.Index: zix := zseen[info.Zone] || $r0 < 0 ? zix : store(zix, info.Zone, $r0)
+//@   at after@slices.Index: zseen := $r0 < 0 ? zseen : store(zseen, info.Zone, true)
 //@   at exit: assert every_walked_owner_returned: walkPlain(r, instanceFilter) && r1 == nil ==> (forall k int :: 0 <= k && k < iterations ==> 0 <= jOf[tokOwner(r, walkIdx(start, k, len(r.ringTokens)))] && jOf[tokOwner(r, walkIdx(start, k, len(r.ringTokens)))] < len(r0) && r0[jOf[tokOwner(r, walkIdx(start, k, len(r.ringTokens)))]] == get(r.ringDesc.Ingesters, tokOwner(r, walkIdx(start, k, len(r.ringTokens)))))
-//@   at exit: assert every_returned_is_walked: walkPlain(r, instanceFilter) && r1 == nil ==> (forall j int :: 0 <= j && j < len(r0) ==> 0 <= wpos[idAt[j]] && wpos[idAt[j]] < iterations && r0[j] == get(r.ringDesc.Ingesters, tokOwner(r, walkIdx(start, wpos[idAt[j]], len(r.ringTokens)))))
+//@   at exit: assert every_returned_is_walked: instanceFilter == nil && r1 == nil ==> (forall j int :: 0 <= j && j < len(r0) ==> 0 <= wpos[idAt[j]] && wpos[idAt[j]] < iterations && r0[j] == get(r.ringDesc.Ingesters, tokOwner(r, walkIdx(start, wpos[idAt[j]], len(r.ringTokens)))))
+//@   at exit: assert zone_skip_only_when_full: instanceFilter == nil && r.cfg.ZoneAwarenessEnabled && zonesRep(r) && r1 == nil ==> (forall k int :: 0 <= k && k < iterations ==> ssHas(distinctHosts, tokOwner(r, walkIdx(start, k, len(r.ringTokens)))) || zoneFull(zseen, foundHostsPerZone, targetHostsPerZone, zix[tokZone(r, walkIdx(start, k, len(r.ringTokens)))], tokZone(r, walkIdx(start, k, len(r.ringTokens)))))
+//@   at exit: assert zone_quota_respected: instanceFilter == nil && r.cfg.ZoneAwarenessEnabled && r1 == nil ==> (forall z int :: 0 <= z && z < len(r.ringZones) ==> foundHostsPerZone[z] <= targetHostsPerZone)
+//@   at exit: assert zone_complete: instanceFilter == nil && r.cfg.ZoneAwarenessEnabled && r1 == nil ==> len(r0) >= min(maxInstances, replicaSetSize) || iterations >= len(r.ringTokens) || (forall z int :: 0 <= z && z < len(totalHostsPerZone) ==> foundHostsPerZone[z] >= targetHostsPerZone || examinedHostsPerZone[z] >= totalHostsPerZone[z])
 //@   at exit: assert accounting: instanceFilter == nil && r1 == nil ==> replicaSetSize == replicationFactor + extCnt(op, r0, len(r0))
 //@   at exit: assert complete: instanceFilter == nil && r1 == nil && !r.cfg.ZoneAwarenessEnabled ==> len(r0) >= min(maxInstances, replicaSetSize) || iterations >= len(r.ringTokens)
 //@   ensures  consistent: r1 == nil
